@@ -78,35 +78,20 @@ SyntaxVisitor::Action TypeCanonicalizer::visitFunctionDefinition(const FunctionD
     return Action::Skip;
 }
 
-void TypeCanonicalizer::canonicalizeAnonymousFields(FieldDeclarationSymbol* fldDecl)
-{
-    auto canonTy = canonicalize(fldDecl->type(), fldDecl->enclosingScope());
-    fldDecl->setType(canonTy);
-
-    if (isStructureOrUnionType(canonTy)
-            && canonTy->asTagType()->isUntagged()) {
-        auto tagTyDecl = canonTy->asTagType()->declaration();
-        if (tagTyDecl) {
-            auto struOrUnioDecl = tagTyDecl->asStructOrUnionDeclaration();
-            for (auto outerFldDecl : struOrUnioDecl->fields())
-                canonicalizeAnonymousFields(
-                        const_cast<FieldDeclarationSymbol*>(outerFldDecl));
-        }
-    }
-}
-
 SyntaxVisitor::Action TypeCanonicalizer::visitFieldDeclaration(
         const FieldDeclarationSyntax* node)
 {
-    if (node->declarators())
-        return Action::Visit;
+    if (!node->declarators()) {
+        // An anonymous structure or union is a field bound without a declarator. The
+        // types of its members are held by the declarations in its specifier, which are
+        // visited (as those of any other specifier) right after.
+        for (auto fldDecl : semaModel_->fieldsFor(node)) {
+            auto canonTy = canonicalize(fldDecl->type(), fldDecl->enclosingScope());
+            fldDecl->setType(canonTy);
+        }
+    }
 
-    const auto& fldDecls = semaModel_->fieldsFor(node);
-    PSY_ASSERT_2(fldDecls.size() == 1, return Action::Quit);
-    auto fldDecl = fldDecls[0];
-    canonicalizeAnonymousFields(fldDecl);
-
-    return Action::Skip;
+    return Action::Visit;
 }
 
 SyntaxVisitor::Action TypeCanonicalizer::visitTagTypeSpecifier(const TagTypeSpecifierSyntax* node)
